@@ -18,6 +18,7 @@ from .common import CEX, DISCHARGED, INCONCLUSIVE, ROOT, Obligation
 PY = os.path.join(ROOT, ".venv", "bin", "python")
 
 SCALARS = ("PROTON_MASS", "ELECTRON_MASS", "NEUTRON_MASS")
+_MISSING = object()
 
 
 def _pept_modules():
@@ -43,12 +44,18 @@ def patched(dict_updates: Sequence[Tuple[dict, Dict[Any, Any]]] = (), scalars: O
                     saved_scalars.append((m, name, getattr(m, name)))
                     setattr(m, name, val)
         for obj, name, val in attrs:
-            saved_attrs.append((obj, name, getattr(obj, name)))
+            saved_attrs.append((obj, name, getattr(obj, name, _MISSING)))
             setattr(obj, name, val)
         yield
     finally:
         for obj, name, val in reversed(saved_attrs):
-            setattr(obj, name, val)
+            if val is _MISSING:
+                try:
+                    delattr(obj, name)
+                except AttributeError:
+                    pass
+            else:
+                setattr(obj, name, val)
         for m, name, val in reversed(saved_scalars):
             setattr(m, name, val)
         for d, old, new_keys in reversed(saved_dicts):
